@@ -562,9 +562,12 @@ class C13(PropBase):
         pool = ["gone.dll", "old.so", "a", "b", "Zed.dll", "plugin_v2.so", "a.dll", "B"]
         mods = []
         top = rng.chance(1, 8)
+        bad = rng.chance(1, 10)       # a size of 0 / a range past u64::MAX makes the reader drop the whole stream
         for _ in range(rng.range(1, 7)):
             base = 0x700000 + 0x800 * rng.below(6) if not (top and rng.chance(1, 2)) else U64 - 0xfff - 0x100 * rng.below(4)
-            size = rng.choice([0, 1, 0x10, 0x800, 0x1000, 0x1800, 0x2000, 0x4000, 0xffffffff])
+            size = rng.choice([1, 0x10, 0x800, 0x1000, 0x1800, 0x2000, 0x4000, 0xffffffff] + ([0] if bad else []))
+            if not bad and base + size > U64:
+                size = U64 - base
             mods.append((base, size, rng.choice(pool)))
         if rng.chance(1, 4):
             mods.append(mods[rng.below(len(mods))])          # an exact duplicate: one offset, listed once
